@@ -22,6 +22,7 @@ RULE = ('random programs of 1-5 operations from {copy, slice (int/slice/list '
         'disk and reopened; the coherence oracle runs on the real result of '
         'every step. non-trivial = the operation returned; distinct = digest '
         'of (operation, input digest).')
+RULE += (" save(format='ioapi') is a legal query step inside a program (the next file built must not inherit anything); programs stop after apply over TSTEP (time metadata is then the caller's).")
 ASSUMPTIONS = [
     'a file with zero listed variables may keep VAR/TFLAG second axis of '
     'length 1 (the convention cannot express an empty axis)',
